@@ -76,7 +76,7 @@ def gen_plan(rng, tier, run):
     plan = {"files": files, "junk": junk, "subdirs": subdirs,
             # process model: every invocation in a fresh module set (= its own process) or all in one process
             "fresh": rng.random() < 0.5,
-            "opts": list(rng.choice(common.SELECTION_SETS)),
+            "opts": common.gen_selection(rng),
             "flags": [x for x in ("-r", "-P") if rng.random() < 0.2],
             "ext": ".pel" if rng.random() < 0.15 else None,
             "hex": rng.random() < 0.25,
